@@ -24,7 +24,8 @@ def list_units():
             "c_pointer_casts": {"props": ["C07"], "tier": "quick", "doc": run_c_pointer_casts.__doc__},
             "c_statics": {"props": ["C18", "C08"], "tier": "quick", "doc": run_c_statics.__doc__},
             "tbb_seam": {"props": ["C08"], "tier": "quick", "doc": run_tbb_seam.__doc__},
-            "hash_serde_derive": {"props": ["C14"], "tier": "quick", "doc": run_hash_serde_derive.__doc__}}
+            "hash_serde_derive": {"props": ["C14"], "tier": "quick", "doc": run_hash_serde_derive.__doc__},
+            "c_functional_text": {"props": ["C06"], "tier": "quick", "doc": run_c_functional_text.__doc__}}
 
 
 def _sha(path):
@@ -415,6 +416,67 @@ def run_tbb_seam():
     return res
 
 
+C_TEXT_FP = os.path.join(common.VERIF, "contracts", "c_text_fingerprint.json")
+C_TEXT_FILES = ["c/blake3.c", "c/blake3_portable.c", "c/blake3_dispatch.c", "c/blake3_impl.h", "c/blake3.h"]
+
+
+def _c_norm_sha(path):
+    """sha256 of the C text with comments removed and white space collapsed (formatting is not code)"""
+    import re
+    src = open(path, encoding="utf-8", errors="replace").read()
+    src = re.sub(r"/\*.*?\*/", " ", src, flags=re.S)
+    src = re.sub(r"//[^\n]*", " ", src)
+    src = re.sub(r"\s+", " ", src).strip()
+    return hashlib.sha256(src.encode("utf-8")).hexdigest()
+
+
+def run_c_functional_text():
+    """C06's END-TO-END functional equality (finalize_seek writes S[seek..seek+out_len] of the concatenated input) is
+    not decided by contracts: the one-level *_fn contracts do not compose across chunk_state_update, the CV stack and
+    the subtree recursion. What stands in for it is an assumption about specific source text, pinned here (sha256 of
+    the comment- and whitespace-free text of blake3.c, blake3_portable.c, blake3_dispatch.c, blake3_impl.h, blake3.h).
+    Unchanged text: pass, nothing to do. Changed text: the assumption is re-examined on the real code by the BOUNDED
+    exploration of lib/search_c.py (all initialisers, ~1570 update/finalize/seek histories x up to 11 build flavours and
+    feature levels, ASan/UBSan, against oracle/b3spec.py): a disagreement is a violation with its failing input; none,
+    with every flavour run to completion, lets the unit pass at level BOUNDED (stated in the evidence, never counted as
+    proved); an incomplete exploration leaves it undecided."""
+    res = new_result("guard:c_functional_text", "guard", level="other")
+    fps = json.load(open(C_TEXT_FP))
+    changed = [rel for rel, want in sorted(fps.items())
+               if not os.path.exists(os.path.join(common.REPO, rel)) or _c_norm_sha(os.path.join(common.REPO, rel)) != want]
+    res["cmd"] = "sha256 of the normalised text of %s vs contracts/c_text_fingerprint.json" % ", ".join(sorted(fps))
+    res["trusted_base"] = ["end-to-end functional equality of the C library with the specification is assumed for the pinned "
+                           "text (re-examined by bounded exploration when the text changes)"]
+    if not changed:
+        res["status"] = "pass"
+        return res
+    import time
+    import search_c
+    seed = int(os.environ.get("VERIF_SEED", "0") or 0)
+    hit = search_c.find("C06", {"function": "blake3_hasher_update", "variants": ["portable", "asm", "intrinsics"]}, seed,
+                        deadline=time.time() + 420)
+    log = hit.get("log") or {}
+    res["level"] = "bounded"
+    n = log.get("scenarios_run", 0)
+    res["bounded"] = ["C text changed (%s): %d C API histories explored on the real library (%s)" % (
+        ", ".join(changed), n, ", ".join("%s/%s:%s" % (p["flavour"], p["feature_level"], p["checked"]) for p in log.get("per_flavour", [])))]
+    if hit.get("found"):
+        f = hit["found"]
+        fo = failed_obligation("blake3_hasher_finalize_seek", "other",
+                               "the changed C library disagrees with the specification (%s)" % str(f.get("field"))[:160],
+                               location=changed[0], clause=str(f.get("scenario"))[:300])
+        fo["found"] = f
+        fo["found_from"] = "search_c"
+        fo["search_log"] = log
+        res["failed"].append(fo)
+        res["status"] = "fail"
+    elif log.get("per_flavour") and all(p.get("complete") for p in log["per_flavour"]) and n > 0:
+        res["status"] = "pass"
+    else:
+        res["undecided_reason"] = "C text changed (%s) and the bounded exploration did not run to completion" % ", ".join(changed)
+    return res
+
+
 def run_hash_serde_derive():
     """serde clause of C14 ("conversions through serde are lossless"): the Serialize / Deserialize impls of `Hash` are
     macro-generated and outside the contracts; what is ASSUMED is serde_derive's behaviour for a newtype over
@@ -466,6 +528,8 @@ def run_hash_serde_derive():
 
 
 def run_unit(name, tier="quick"):
+    if name == "c_functional_text":
+        return run_c_functional_text()
     if name == "hash_serde_derive":
         return run_hash_serde_derive()
     if name == "c_statics":
